@@ -27,7 +27,7 @@ func VH_C03_proposal(n int, rule int, parentSel int, qcSel int) {
 	vassume(leader >= 2 && int(leader) <= n+1)
 	r := VNewReplica(n, rule, leader, vsymbolic())
 	w := r.W
-	q := hotstuff.QuorumSize(n)
+	q := hotstuff.VQuorumRef(n)
 	gen := hotstuff.GetGenesis()
 	gqc := hotstuff.NewQuorumCert(nil, 0, gen.Hash())
 	v1 := hotstuff.View(nondetU64("v1"))
@@ -129,7 +129,7 @@ func VH_C03_timeout_then_proposal(n int, rule int) {
 func VH_C03_leader_step(n int, rule int) {
 	r := VNewReplica(n, rule, hotstuff.ID(1), vsymbolic()) // replica 1 leads every view
 	w := r.W
-	q := hotstuff.QuorumSize(n)
+	q := hotstuff.VQuorumRef(n)
 	gen := hotstuff.GetGenesis()
 	gqc := hotstuff.NewQuorumCert(nil, 0, gen.Hash())
 	v1 := hotstuff.View(nondetU64("v1"))
